@@ -3933,6 +3933,11 @@ def in_partial_package(id: str, manager: BuildManager) -> bool:
                 ancestor_mod = ancestor_st.tree
                 # We will not need this anymore.
                 ancestor_st.tree = None
+                # Forget the parsed AST as well: it is cached by module id, but the file was
+                # found by module search and can differ from the file this module is actually
+                # built from (a stub next to a source file that is passed on the command line),
+                # so it must not be reused when the real module is parsed.
+                manager.ast_cache.pop(ancestor, None)
         if ancestor_mod is not None:
             # Bail out soon, complete subpackage found
             manager.known_partial_packages[ancestor] = ancestor_mod.is_partial_stub_package
